@@ -309,7 +309,6 @@ class SphinxBinding(Binding):
 
     def expected(self, case: dict, parts: list, ann: dict, dflt: dict) -> list:
         out = []
-        S = self.st.S
         for sec in case["expect"]:
             kind = sec["kind"]
             rec = {"kind": kind, "title": None}
@@ -328,7 +327,7 @@ class SphinxBinding(Binding):
                     if el["ann"] == "inline":
                         it["annotation"] = p["inline"] if kind != "raises" else el["name"]
                     elif el["ann"] == "field":
-                        it["annotation"] = S._consolidate_descriptive_type(parts[el["tf"]]["value"].strip())
+                        it["annotation"] = parts[el["tf"]]["value"].strip().replace(" or ", " | ")      # `A or B` is written back as `A | B`
                     elif el["ann"] == "sig":
                         it["annotation"] = ann[i]
                     elif el["ann"] == "none":
